@@ -616,16 +616,16 @@ func (w *Writer) Write(f feat.Feature) (n int, err error) {
 			} else {
 				_n, err = fmt.Fprintf(w.w, "%.*f", w.Precision, *f.FeatScore)
 			}
-			if err != nil {
-				return n, err
-			}
 			n += _n
-		} else {
-			_, err = w.w.Write([]byte{'.'})
 			if err != nil {
 				return n, err
 			}
-			n++
+		} else {
+			_n, err = w.w.Write([]byte{'.'})
+			n += _n
+			if err != nil {
+				return n, err
+			}
 		}
 		_n, err = fmt.Fprintf(w.w, "\t%s\t%s",
 			f.FeatStrand,
@@ -637,16 +637,16 @@ func (w *Writer) Write(f feat.Feature) (n int, err error) {
 		}
 		if f.FeatAttributes != nil {
 			_n, err = fmt.Fprintf(w.w, "\t%v", f.FeatAttributes)
+			n += _n
 			if err != nil {
 				return n, err
 			}
-			n += _n
 		} else if f.Comments != "" {
-			_, err = w.w.Write([]byte{'\t'})
+			_n, err = w.w.Write([]byte{'\t'})
+			n += _n
 			if err != nil {
-				return
+				return n, err
 			}
-			n++
 		}
 		if f.Comments != "" {
 			_n, err = fmt.Fprintf(w.w, "\t%s", f.Comments)
